@@ -25,7 +25,9 @@ func byteInts(b []byte) []int {
 	return out
 }
 
-func isNaNBits(u uint64) bool  { return u&0x7FF0000000000000 == 0x7FF0000000000000 && u&0x000FFFFFFFFFFFFF != 0 }
+func isNaNBits(u uint64) bool {
+	return u&0x7FF0000000000000 == 0x7FF0000000000000 && u&0x000FFFFFFFFFFFFF != 0
+}
 func isNegZeroBits(u uint64) bool { return u == 0x8000000000000000 }
 func ordinaryFloatBits(u uint64) bool {
 	return !isNaNBits(u) && !isNegZeroBits(u)
@@ -173,7 +175,7 @@ func splitPair(r *rand.Rand, pool []int64) (int64, int64) {
 	case 6:
 		k := uint(r.Intn(15)) + 1
 		a = a&^lowMask(k) - int64(r.Intn(3)) + 1
-		b = (a+deltas[r.Intn(len(deltas))])|lowMask(k) + int64(r.Intn(3)) - 1
+		b = (a + deltas[r.Intn(len(deltas))]) | lowMask(k) + int64(r.Intn(3)) - 1
 	default:
 		b = a - deltas[r.Intn(len(deltas))]
 		a, b = b, a
